@@ -11,7 +11,7 @@ import (
 )
 
 func configs(run *mon.Run) []stress.Config {
-	callers, ops := 16, 120
+	callers, ops := 16, 250
 	if !run.Quick() {
 		callers, ops = 32, 1500
 	}
@@ -42,11 +42,6 @@ func TestC01(t *testing.T) {
 	defer run.Finish()
 	run.Assume("fakeredis answers VERIF.ECHO with F(uid, shape) and keeps per-connection reply order", "schedules are those the Go scheduler produced on this machine; see observations for how many overlapped and how many wire-order inversions were seen")
 	var tot stress.Stats
-	for _, cfg := range configs(run) {
-		st := stress.Run(run, cfg, false)
-		run.Sample(map[string]any{"config": cfg.String(), "stats": fmt.Sprintf("%+v", st)})
-		add(&tot, st)
-	}
 	// deadline-driven cancellation in virtual time, with server latency; the bubble also detects leaked/hung goroutines
 	nb := run.N(6, 60)
 	for i := 0; i < nb; i++ {
@@ -59,6 +54,13 @@ func TestC01(t *testing.T) {
 		}
 		add(&tot, st)
 		run.Observe("bubble_runs", 1)
+	}
+	// real-time runs under the race detector: schedule diversity (a hang here can only end in the outer watchdog,
+	// which is why the virtual-time runs with their deadlock detector come first)
+	for _, cfg := range configs(run) {
+		st := stress.Run(run, cfg, false)
+		run.Sample(map[string]any{"config": cfg.String(), "stats": fmt.Sprintf("%+v", st)})
+		add(&tot, st)
 	}
 	run.Observe("calls", tot.Calls)
 	run.Observe("commands", tot.Cmds)
